@@ -1,4 +1,25 @@
-import Spok.Judge.Syntax
-/-! # Property C15 — theorems (under construction) -/
+import Spok.Props.C07
+/-! # Property C15 — formatting keeps every comment and every task's docstring
+
+`notes t` is the sequence of non-empty comments (trimmed, as the formatter and `--show` see them), the
+positions of the statements between them, and every task's (trimmed) docstring.  `notes (norm t) = notes t`
+holds for EVERY tree; with `print_parse` the re-parsed formatted text has the same notes, for every
+well-formed tree: no comment lost, duplicated, moved past a statement or turned into a docstring.
+Open: `parse_wf` (see `Props/C07`). -/
 namespace Spok.Props.C15
+open Spok
+
+theorem notes_norm (t : Tree) : notes (norm t) = notes t := Spok.notes_norm t
+
+/-- **C15** for every well-formed tree.  Missing for the full property: `parse_wf`. -/
+theorem C15_partial (t : Tree) (h : wfTree t = true) :
+    (parseRunes (format t)).fail = none ∧ notes (parseRunes (format t)).tree = notes t := by
+  rw [C07.print_parse t h]; exact ⟨rfl, Spok.notes_norm t⟩
+
+theorem judge_accepts_model_partial (t : Tree) (h : wfTree t = true) :
+    Judge.c15 t (.ok (parseRunes (format t)).tree) = true := by
+  rw [C07.print_parse t h]; simp [Judge.c15, Spok.notes_norm]
+
+example : notes (parseRunes (format Fmt.exTree)).tree = notes Fmt.exTree := (C15_partial _ Fmt.exTree_wf).2
+
 end Spok.Props.C15
